@@ -22,21 +22,98 @@ def norm(t):
     return re.sub(r'<[A-Za-z]+:(?!:)[^>]*>', '', t).replace('gdstk::', '').replace('ClipperLib::', '')
 
 
+def pretty(s_):
+    from ..flow import pretty_key
+    return pretty_key(s_[0]) + ('.' + s_[1] if s_[1] else '')
+
+
 def check_conversions(ctx, db):
+    """polygon_to_path: for both orientations the grid point d receives llround(scaling x coordinate) of input vertex d
+    (counter-clockwise input) or of vertex n-1-d (clockwise input, negative signed area): decided from the affine loop
+    summaries (sa/loops.py) of whatever loops the function uses, under both truth values of the orientation flag, and
+    from the value-flow sources of the stored coordinates (sa/deps.py)."""
+    from .. import loops as LP, deps
+    from ..linear import lin_add
     f = db.fn('gdstk::polygon_to_path')
     ctx.touch(f)
-    loops = [l for l in f.walk() if l.k == 'ForStmt']
-    ok = len(loops) == 2
-    bodies = []
-    for l in loops:
-        st = {norm(x.child('lhs').text(clone.Renamer(f, params_by_name=True))): norm(x.child('rhs').text(clone.Renamer(f, params_by_name=True))) for x in l.walk() if is_assign(x)}
-        bodies.append(st)
-    want = lambda st: len(st) == 2 and all(re.match(r'^llround\(\(\$scaling \* v\d+->%s\)\)$' % c, v) for (k, v), c in zip(sorted(st.items()), ('x', 'y'))) and all(k.endswith(('->X', '->Y')) for k in st)
-    ok = ok and all(want(b) for b in bodies)
-    ctx.check(ok, 'R-UNIT', 'polygon_to_path/llround(scaling*coord)', f.loc(), 'X and Y are llround(scaling x coordinate) in both orientation branches', 'conversion stores: %s' % bodies)
-    t = norm(clone.canon(f.body, f, ren=clone.Renamer(f, params_by_name=True)))
-    ok = 'bool v0 = ($polygon.signed_area() < 0)' in t and re.search(r'if \(v0\)', t) is not None and '(v3--)' in t and '(v3++)' in t
-    ctx.check(ok, 'R-SHAPE', 'polygon_to_path/orientation', f.loc(), 'clockwise input (negative signed area) is reversed: paths handed to Clipper are all counter-clockwise')
+    D = deps.Deps(f)
+    stores = [x for x in f.walk() if is_assign(x) and x.op == '=' and _strip_casts(x.child('lhs')).k == 'MemberExpr' and _strip_casts(x.child('lhs')).n in ('X', 'Y')]
+    if len(stores) < 2:
+        raise AnalysisBroken('polygon_to_path: stores into IntPoint::X / Y not found')
+    # the orientation flag: a boolean local defined as signed_area() < 0, or that comparison used directly
+    flag = None
+    for v in f.walk():
+        if v.k == 'VarDecl' and 'bool' in (v.t or '') and v.child('init') is not None:
+            c = _strip_casts(v.child('init'))
+            if c.k == 'BinaryOperator' and c.op in ('<', '>') and any(m.k == 'CXXMemberCallExpr' and (m.callee or '').endswith('Polygon::signed_area') for m in c.walk()):
+                z, a = (c.child('rhs'), c.child('lhs')) if c.op == '<' else (c.child('lhs'), c.child('rhs'))
+                if (_strip_casts(z).cv == 0 or _strip_casts(z).fv == 0.0) and any(m.k == 'CXXMemberCallExpr' for m in a.walk()):
+                    flag = 'v%d:%s' % (v.d, v.n)
+    if flag is None:
+        cand = [v for v in f.walk() if v.k == 'VarDecl' and 'bool' in (v.t or '') and v.child('init') is not None]
+        if len(cand) == 1:
+            ctx.violation('R-SHAPE', 'polygon_to_path/orientation', cand[0].loc(), 'the vertex order is decided by `%s`, not by the sign of the signed area: clockwise input is not reversed, so the path handed to Clipper is not counter-clockwise' % norm(cand[0].child('init').text()))
+            return
+        raise AnalysisBroken('polygon_to_path: orientation flag (signed_area() < 0) not found')
+    unit_bad, shape_bad = [], []
+    nsites = 0
+    for reverse in (False, True):
+        bools = {flag: reverse}
+
+        def ev(cond, bools=bools):
+            return LP.Loop.fold_static(f, cond, bools)
+        unknown = []
+        ex = tables.executed([f.body], {}, unknown=unknown, evaluator=ev)
+        live = [x for x in stores if any(any(y is x for y in st.walk()) for st, _ in ex)]
+        if not live or len({_strip_casts(x.child('lhs')).n for x in live}) != 2:
+            shape_bad.append('with reverse=%s the executed code does not store both X and Y' % reverse)
+            continue
+        for x in live:
+            nsites += 1
+            lhs = _strip_casts(x.child('lhs'))
+            comp = lhs.n.lower()
+            r = _strip_casts(x.child('rhs'))
+            src = D.sources(r)
+            pts = {s_: t for s_, t in src.items() if s_[1] in ('x', 'y', '?')}
+            scal = {s_: t for s_, t in src.items() if s_[1] is None}
+            if not (r.k == 'CallExpr' and r.callee in ('llround', 'lround')):
+                unit_bad.append('%s: %s is not rounded with llround' % (x.loc(), lhs.n))
+            if len(pts) != 1 or next(iter(pts))[1] != comp or next(iter(pts.values())) != frozenset({'scale'}):
+                unit_bad.append('%s: %s is computed from %s (expected scaling x the %s coordinate of one vertex)' % (x.loc(), lhs.n, {pretty(s_): sorted(t) for s_, t in pts.items()}, comp))
+            if len(scal) != 1 or not next(iter(scal))[0].endswith(':scaling') and 'scaling' not in next(iter(scal))[0]:
+                unit_bad.append('%s: the factor is %s, not the scaling parameter' % (x.loc(), sorted(pretty(s_) for s_ in scal)))
+            L = LP.enclosing_loop(x)
+            if L is None:
+                raise AnalysisBroken('polygon_to_path: coordinate store outside a loop')
+            lp = LP.Loop(f, L, bools=bools)
+            trip = lp.trip()
+            dst = lp.element_ptr(lhs, x)
+            leaf = next((m for m in r.walk() if m.k == 'MemberExpr' and m.n in ('x', 'y')), None)
+            sp = lp.element_ptr(leaf, x) if leaf is not None else None
+            if trip is None or dst is None or sp is None:
+                raise AnalysisBroken('polygon_to_path: loop at %s not summarised (trip %s, destination %s, source %s)' % (L.loc(), trip, dst, sp))
+            dk, sk = dst.get(LP.K, 0), sp.get(LP.K, 0)
+            d0 = {k_: v for k_, v in dst.items() if k_ != LP.K}
+            s0 = {k_: v for k_, v in sp.items() if k_ != LP.K}
+            dbase = [k_ for k_ in d0 if k_ != 1]
+            sbase = [k_ for k_ in s0 if k_ != 1 and k_.endswith('.items')]
+            if dk != 1 or len(dbase) != 1 or d0.get(1, 0) != 0:
+                shape_bad.append('reverse=%s: grid point index is %s (expected k)' % (reverse, dst))
+                continue
+            if len(sbase) != 1:
+                raise AnalysisBroken('polygon_to_path: source base not identified in %s' % sp)
+            count = {sbase[0][:-len('.items')] + '.count': 1}
+            if lin_add(trip, count, -1):
+                shape_bad.append('reverse=%s: the loop runs %s times, not once per vertex' % (reverse, trip))
+            off = lin_add(s0, {sbase[0]: 1}, -1)
+            if not reverse and not (sk == 1 and not off):
+                shape_bad.append('counter-clockwise input: grid point k is taken from vertex %s + %d k (expected vertex k)' % (off, sk))
+            if reverse and not (sk == -1 and not lin_add(off, lin_add(count, {1: -1}), -1)):
+                shape_bad.append('clockwise input (negative signed area): grid point k is taken from vertex %s + %d k (expected vertex n-1-k: the path handed to Clipper must be counter-clockwise)' % (off, sk))
+    ctx.explored['valuations'] += 2
+    ctx.require('polygon_to_path coordinate stores', nsites, 4)
+    ctx.check(not unit_bad, 'R-UNIT', 'polygon_to_path/llround(scaling*coord)', f.loc(), 'X and Y are llround(scaling x coordinate) of one vertex in both orientations', '; '.join(unit_bad[:3]))
+    ctx.check(not shape_bad, 'R-SHAPE', 'polygon_to_path/orientation', f.loc(), 'clockwise input (negative signed area) is reversed: paths handed to Clipper are all counter-clockwise', '; '.join(shape_bad[:3]))
     g = db.fn('gdstk::path_to_polygon')
     ctx.touch(g)
     t = norm(clone.canon(g.body, g, ren=clone.Renamer(g, params_by_name=True)))
